@@ -458,6 +458,15 @@ public:
     {
       return; // silent no-op on absent key
     }
+    {
+      // An expired-but-not-yet-evicted key is absent for every reader; giving
+      // it a new expiry would make it reappear.
+      auto eit = _expiry.find(key);
+      if (eit != _expiry.end() && eit->second.expiry <= std::chrono::system_clock::now())
+      {
+        return;
+      }
+    }
     startTtlOrCleanup(lock);
 
     cancelTimerLocked(key);
@@ -528,6 +537,10 @@ public:
     if (_expiry.find(key) == _expiry.end())
     {
       return; // already permanent
+    }
+    if (_expiry.find(key)->second.expiry <= std::chrono::system_clock::now())
+    {
+      return; // expired-not-yet-evicted: absent for readers, must not reappear
     }
 
     cancelTimerLocked(key);
@@ -1294,6 +1307,23 @@ private:
     return true;
   }
 
+  /// Drop every key whose expiry has passed (load-time only, no timers armed yet).
+  void purgeExpiredAfterLoad(std::chrono::system_clock::time_point now)
+  {
+    for (auto it = _expiry.begin(); it != _expiry.end();)
+    {
+      if (it->second.expiry <= now)
+      {
+        _kv.erase(it->first);
+        it = _expiry.erase(it);
+      }
+      else
+      {
+        ++it;
+      }
+    }
+  }
+
   void load()
   {
     const auto now = std::chrono::system_clock::now();
@@ -1373,13 +1403,12 @@ private:
           }
           else if (isPlausibleEpochMs(expiryMs))
           {
+            // Keep the entry even if its expiry has passed: a later 'X' record
+            // in the log may extend or clear the expiry. Expiry is evaluated
+            // once, against the final state, after the log has been replayed.
             const auto exp = fromEpochMs(expiryMs);
-            if (exp > now)
-            {
-              _kv[key] = std::move(value);
-              _expiry[key] = ExpiryEntry{exp, core::InvalidTimerId};
-            }
-            // else: already expired at load — drop the entry entirely.
+            _kv[key] = std::move(value);
+            _expiry[key] = ExpiryEntry{exp, core::InvalidTimerId};
           }
           // else: implausible (corrupt) expiry — drop the entry, mirroring the
           // 'E' log op's sanity-bound rejection (KTP-11). NOT kept as eternal.
@@ -1395,7 +1424,10 @@ private:
     // Load log with enhanced error handling and corruption detection
     std::ifstream log(_logPath, std::ios::binary);
     if (!log.is_open())
+    {
+      purgeExpiredAfterLoad(now);
       return; // No log file yet
+    }
 
     // Offset just past the last COMPLETE record frame. Anything beyond it is the
     // torn tail of a write that a crash interrupted.
@@ -1504,17 +1536,11 @@ private:
         }
         std::vector<std::uint8_t> value(valLen);
         std::memcpy(value.data(), ptr, valLen);
+        // Expiry is evaluated after the whole log has been replayed (see below):
+        // a later 'X' record may extend or clear it.
         const auto exp = fromEpochMs(expiryMs);
-        if (exp > now)
-        {
-          _kv[key] = std::move(value);
-          _expiry[key] = ExpiryEntry{exp, core::InvalidTimerId};
-        }
-        else
-        {
-          _kv.erase(key); // already expired → drop
-          _expiry.erase(key);
-        }
+        _kv[key] = std::move(value);
+        _expiry[key] = ExpiryEntry{exp, core::InvalidTimerId};
       }
       else if (op == 'X')
       {
@@ -1534,16 +1560,7 @@ private:
         }
         else if (isPlausibleEpochMs(expiryMs))
         {
-          const auto exp = fromEpochMs(expiryMs);
-          if (exp > now)
-          {
-            _expiry[key] = ExpiryEntry{exp, core::InvalidTimerId};
-          }
-          else
-          {
-            _kv.erase(key); // expiry already past → drop the key
-            _expiry.erase(key);
-          }
+          _expiry[key] = ExpiryEntry{fromEpochMs(expiryMs), core::InvalidTimerId};
         }
         // implausible expiry → ignore
       }
@@ -1553,6 +1570,13 @@ private:
         _expiry.erase(key);
       }
     }
+
+    // Evaluate expiry against the FINAL replayed state. Doing it record by
+    // record dropped a key at its (meanwhile expired) 'E' record and then
+    // ignored the later persist()/expireAt() 'X' record as an orphan, so a key
+    // that had been made permanent or extended before it expired was lost on
+    // restart.
+    purgeExpiredAfterLoad(now);
 
     // Cut off a torn tail before the log is reopened for appending. Otherwise
     // the next load would take the torn record's length prefix at face value,
